@@ -30,7 +30,7 @@ def run(chk):
             chk.violation('inverse-mismatch', 'GetInverseImage disagrees with the model (code %d: 1 generated model differs, 2 implementation differs)' % c['code'],
                           {'kind': 'inverse-corr', 'case': c})
         for c in bad_img[:2]:
-            chk.violation('image-mismatch', 'GetImage disagrees with the model (code %d)' % c['code'], {'kind': 'image-corr', 'case': c})
+            chk.violation('image-mismatch', 'GetImage disagrees with the model (code %d)' % c['code'], {'kind': 'image-corr', 'case': c}, found_input=False)
 
 
 def replay(chk, rp):
